@@ -20,6 +20,23 @@ var GhostRequests int
 
 var _ = factory.ChfConfig // the contracts below mention the configuration
 
+// Ghost model of the account-balance peer as seen by the requesting subscriber (C01, C06): the balance
+// it stores per rating group, and whether some request got no usable answer. The assumed clauses of
+// SendAccountDebitRequest below restate the contract proved for the server (pkg/abmf handleCCR$1, C07).
+var GhostBalance map[uint32]int64
+var GhostFailed bool
+
+func specGrant(req, bal int64) int64 {
+	if req > bal {
+		return bal
+	}
+	return req
+}
+
+func specIsReserve(ccr *charging_datatype.AccountDebitRequest) bool {
+	return ccr.RequestedAction == charging_datatype.DIRECT_DEBITING && (ccr.CcRequestType == charging_datatype.INITIAL_REQUEST || ccr.CcRequestType == charging_datatype.UPDATE_REQUEST)
+}
+
 // A completed request leaves no connection behind, on every return path (C18).
 //@ func SendAccountDebitRequest [C18]
 //@   requires ue != nil && ccr != nil && ue.AbmfClient != nil
@@ -28,4 +45,9 @@ var _ = factory.ChfConfig // the contracts below mention the configuration
 //@   ensures assumed GhostRequests >= old(GhostRequests)
 //@   ensures [C11 C18] (result1 == nil) == (result0 != nil)
 //@   ensures assumed [C11] result1 == nil && ccr.RequestedAction == charging_datatype.DIRECT_DEBITING && (ccr.CcRequestType == charging_datatype.INITIAL_REQUEST || ccr.CcRequestType == charging_datatype.UPDATE_REQUEST) ==> result0.MultipleServicesCreditControl != nil && result0.MultipleServicesCreditControl.GrantedServiceUnit != nil
-//@   modifies global(&GhostRequests), field(ccr, DestinationRealm), field(ccr, DestinationHost)
+//@   ensures assumed [C01 C06] result1 != nil ==> GhostFailed
+//@   ensures assumed [C01 C06] result1 == nil ==> GhostFailed == old(GhostFailed)
+//@   ensures assumed [C01 C06] result1 == nil && ccr.MultipleServicesCreditControl != nil && specIsReserve(ccr) && ccr.MultipleServicesCreditControl.RequestedServiceUnit != nil ==> GhostBalance[uint32(ccr.MultipleServicesCreditControl.RatingGroup)] == old(GhostBalance[uint32(ccr.MultipleServicesCreditControl.RatingGroup)])-specGrant(int64(ccr.MultipleServicesCreditControl.RequestedServiceUnit.CCTotalOctets), old(GhostBalance[uint32(ccr.MultipleServicesCreditControl.RatingGroup)])) && int64(result0.MultipleServicesCreditControl.GrantedServiceUnit.CCTotalOctets) == specGrant(int64(ccr.MultipleServicesCreditControl.RequestedServiceUnit.CCTotalOctets), old(GhostBalance[uint32(ccr.MultipleServicesCreditControl.RatingGroup)])) && (result0.MultipleServicesCreditControl.FinalUnitIndication != nil) == (int64(ccr.MultipleServicesCreditControl.RequestedServiceUnit.CCTotalOctets) > old(GhostBalance[uint32(ccr.MultipleServicesCreditControl.RatingGroup)]))
+//@   ensures assumed [C01 C06] result1 == nil && ccr.MultipleServicesCreditControl != nil && ccr.RequestedAction == charging_datatype.REFUND_ACCOUNT && ccr.MultipleServicesCreditControl.RequestedServiceUnit != nil ==> GhostBalance[uint32(ccr.MultipleServicesCreditControl.RatingGroup)] == old(GhostBalance[uint32(ccr.MultipleServicesCreditControl.RatingGroup)])+int64(ccr.MultipleServicesCreditControl.RequestedServiceUnit.CCTotalOctets)
+//@   ensures assumed [C01 C06] result1 == nil && ccr.MultipleServicesCreditControl != nil && ccr.RequestedAction == charging_datatype.DIRECT_DEBITING && ccr.CcRequestType == charging_datatype.TERMINATION_REQUEST && ccr.MultipleServicesCreditControl.UsedServiceUnit != nil ==> GhostBalance[uint32(ccr.MultipleServicesCreditControl.RatingGroup)] == old(GhostBalance[uint32(ccr.MultipleServicesCreditControl.RatingGroup)])-int64(ccr.MultipleServicesCreditControl.UsedServiceUnit.CCTotalOctets)
+//@   modifies global(&GhostRequests), field(ccr, DestinationRealm), field(ccr, DestinationHost), mapof(GhostBalance), global(&GhostFailed)
